@@ -62,8 +62,10 @@ TRUSTED = [
 ASSUMPTIONS = [
     "cut-off / centre frequency in (0, pi), bandwidth > 0, delay >= 1, eta >= 1 (the property's quantifier)",
     "theorems are over the reals; rounding is covered by the comparison tolerance only",
-    "gammatone.sampled first section: unit gain is proved under the hypothesis that its un-normalised gain is non-zero "
-    "(unconditionally for eta = 1)",
+    "gammatone.sampled first section: unit gain is proved for EVERY order eta and phase (gammatone_sampled_first_unit_gain_all_eta; "
+    "the differentiated numerator never vanishes at the centre frequency: closed form with Eulerian polynomials, "
+    "gammatone_sampled_numerator_closed_form / _ne_zero) - over the reals; for eta >= 5 near 0 or pi the Float evaluation "
+    "is dominated by rounding (see the tolerance line below)",
     "the branch `if not denR: denR = 1` of lowpass.z / highpass.z is unreachable with binary floats (no double has "
     "cos(x) == 0); it is covered by the theorems (cut-off pi/2 over the reals), not by the tie",
     "histories: 'sample by sample' is read as: a design pulls exactly one value of each Stream-valued parameter for every "
@@ -83,7 +85,15 @@ ASSUMPTIONS = [
     "freq_response evaluation (sum|c_k| / |sum c_k z^k|); for gammatone.sampled with eta >= 5 at centre frequencies "
     "within ~1e-2 of 0 or pi rounding dominates and the unit-gain check becomes vacuous (histogram gammatone_gain_tolerance)",
 ]
-MANIFEST = {"technique": "Lean 4 proof over R of generic [TrigField] design definitions + Float twin tied to the implementation "
+MANIFEST = {"text": "Lean 4 theorems (57, no sorry/axiom, no PENDING statement) over R about the generic [TrigField] design "
+                    "definitions the driver runs at Float: lowpass/highpass gains, half power, monotonicity, pole radii (8 strategies); "
+                    "resonators: unit gain, stability, pole radius exp(-bw/2), for z_exp exactly on |cos f| <= 1/cosh(bw/2) (iff; outside "
+                    "it a real pole of larger modulus: recorded finding); combs = their difference equations; gammatone slaney / klapuri / "
+                    "sampled: EVERY section has unit gain at the centre frequency and poles A e^{+-jf}, A = e^{-bw} < 1 - for sampled for "
+                    "every order eta and phase (the numerator after eta-1 passes of ZFilter.diff(mul_after=-z) in closed form with "
+                    "Eulerian polynomials; it never vanishes at e^{jf}); histories of designs sharing parameter objects; tied to /repo "
+                    "by a differential correspondence (Float twin, tol 1e-9) run on every check",
+            "technique": "Lean 4 proof over R of generic [TrigField] design definitions + Float twin tied to the implementation "
                          "+ histories of designs sharing parameter objects (Lean state machine = state-free spec, proved) "
                          "+ long-delay / long-run time-domain runs against the difference equations"}
 
@@ -677,14 +687,12 @@ def tally(eng, c, io):
 def extra_checks(eng):
     """identity facts about the implementation's strategy tables (not per-case)"""
     import audiolazy as al
-    eng.extra["pending"] = [
-        "gammatone_sampled_first_unit_gain_all_eta (def ... : Prop in Props/C13.lean): unit gain of the FIRST section of "
-        "gammatone.sampled for every order eta without the hypothesis that its differentiated numerator does not vanish "
-        "at e^{jf}; proved for eta = 1 (gammatone_sampled_first_eta1) and conditionally for all eta "
-        "(gammatone_sampled_sections); the general case is carried by the tie (eta 1..6)"]
+    eng.extra["pending"] = []   # gammatone_sampled_first_unit_gain_all_eta is a theorem now (Eulerian closed form)
     eng.extra["refuted_on_the_model"] = [
         "resonator.z_exp pole radius exp(-bw/2) for ALL parameters: false when cos(f)*(1+R^2) > 2R "
-        "(theorem resonator_z_exp_real_poles); recorded as known finding"]
+        "(theorem resonator_z_exp_real_poles); recorded as known finding; exact region: the documented radius holds iff "
+        "|cos f| <= 1/cosh(bw/2), i.e. arccos(1/cosh(bw/2)) <= f <= pi - arccos(1/cosh(bw/2)) "
+        "(theorems resonator_z_exp_radius_region / _radius_interval / _wrong_radius)"]
     want = {
         "lowpass": {"pole", "z", "pole_exp", "z_exp"}, "highpass": {"pole", "z", "pole_exp", "z_exp"},
         "resonator": {"poles_exp", "freq_poles_exp", "z_exp", "freq_z_exp"},
